@@ -446,6 +446,8 @@ class Scenario:
                 text = ".quad %s+4\n.byte %d" % (name[3:], k & 0xFF)
             else:
                 text = a64[name]
+        elif name.startswith("twocalls:"):
+            text = "mov eax, %d\ncall %s\nmov ebx, %d\ncall %s\nmov ecx, %d" % (k, name[9:], k, name[9:], k)
         elif name.startswith("jmp:"):
             text = "mov eax, %d\njmp %s" % (k, name[4:])
         elif name.startswith("call:"):
